@@ -144,6 +144,14 @@ def to_tfrecord(saved_data_description: list[Attribute],
             raise ValueError(f"Wrong shape of {attribute.name}, expected: "
                              f"{attribute.shape}, got: {value.shape}.")
 
+        # Check dtype kind, an Int64List or FloatList silently stays empty
+        # when given an array of another kind and could not be parsed back.
+        if attribute.dtype not in ["bytes", "str"]:
+            allowed_kinds = "iub" if "int" in attribute.dtype else "iubf"
+            if value.dtype.kind not in allowed_kinds:
+                raise ValueError(f"Wrong dtype of {attribute.name}, expected: "
+                                 f"{attribute.dtype}, got: {value.dtype}.")
+
         # Set feature value
         if attribute.dtype in ["int8", "uint8", "int32", "int64"]:
             feature[attribute.name] = int64_feature(values[attribute.name])
